@@ -6,8 +6,9 @@ package c01
 // service websocket (route registered by (*service.Service).Start, real authentication and
 // dispatch), registers 1-2 agent types whose MagicValue STRING is drawn from spelling
 // classes, optionally registers a third-party session, and answers the AgentResponse
-// requests the listener relays to it like a well-behaved service (at once, late, or a
-// second time after the request is over; it may also disconnect between two requests).
+// requests the listener relays to it (at once, late, or a second time after the request
+// is over); it may also disconnect between two requests, or close its websocket INSTEAD
+// of answering one or two pending relayed requests and come back afterwards.
 // A Demon session is registered in the same teamserver.
 //
 // Requests go through the HTTP listener engine and the External-C2 handler: packages whose
@@ -68,7 +69,8 @@ type ReqD struct {
 	Len     int    `json:"len"`     // tp: total length of the package
 	BadSize bool   `json:"bad_size,omitempty"`
 	Payload []byte `json:"payload,omitempty"` // bytes after the 12-byte header (cut/extended to Len)
-	Answer  string `json:"answer,omitempty"`  // how the service answers if the request reaches it: now late twice
+	Answer  string `json:"answer,omitempty"`  // how the service answers if the request reaches it: now late twice close-clean close-abrupt
+	Pair    bool   `json:"pair,omitempty"`    // close-*: a second request (other agent id, other entry point) is pending at the same time
 	Leave   string `json:"leave,omitempty"`   // "" | clean | abrupt: the service disconnects AFTER this request
 }
 
@@ -147,7 +149,10 @@ func genD(t *rapid.T) CaseD {
 			}
 			r.BadSize = rapid.IntRange(0, 3).Draw(t, "badsize") == 0
 			r.Payload = rapid.SliceOfN(rapid.Byte(), 0, 16).Draw(t, "payload")
-			r.Answer = rapid.SampledFrom([]string{"now", "now", "late", "twice"}).Draw(t, "answer")
+			r.Answer = rapid.SampledFrom([]string{"now", "now", "now", "late", "twice", "close-clean", "close-abrupt"}).Draw(t, "answer")
+			if strings.HasPrefix(r.Answer, "close-") {
+				r.Pair = rapid.Bool().Draw(t, "pair")
+			}
 		}
 		if rapid.IntRange(0, 11).Draw(t, "leave") == 0 {
 			r.Leave = rapid.SampledFrom([]string{"clean", "abrupt"}).Draw(t, "leavehow")
@@ -266,6 +271,9 @@ func (s *svcClient) reader() {
 			s.mu.Unlock()
 			reply := map[string]any{"Head": map[string]any{"Type": "Agent"}, "Body": map[string]any{
 				"Type": "AgentResponse", "RandID": rid, "Response": base64.StdEncoding.EncodeToString(append([]byte(svcTag), raw...))}}
+			if how == "hold" {
+				continue // the script is about to close the websocket instead of answering
+			}
 			if how == "late" {
 				time.Sleep(15 * time.Millisecond)
 			}
@@ -353,11 +361,57 @@ func checkD(c CaseD) *core.Violation {
 	srv := httptest.NewServer(w.TS.Server.Engine)
 	defer srv.Close()
 
-	conn, _, err := websocket.DefaultDialer.Dial("ws"+strings.TrimPrefix(srv.URL, "http")+"/svc", nil)
-	if err != nil {
-		panic("infrastructure: service websocket: " + err.Error())
+	// connectService plays the start of a service script: connect, authenticate, register the agent
+	// types (havoc-py AgentType.get_dict() shape) and, the first time, the third-party session.
+	connectService := func(first bool) (*svcClient, error) {
+		conn, _, err := websocket.DefaultDialer.Dial("ws"+strings.TrimPrefix(srv.URL, "http")+"/svc", nil)
+		if err != nil {
+			return nil, err
+		}
+		sc := &svcClient{conn: conn, answer: "now", replies: map[string]chan map[string]map[string]any{}, done: make(chan struct{})}
+		if err := conn.WriteJSON(map[string]any{"Head": map[string]any{"Type": "Register"}, "Body": map[string]any{"Password": "svcpw"}}); err != nil {
+			conn.Close()
+			return nil, err
+		}
+		var auth map[string]map[string]any
+		conn.SetReadDeadline(time.Now().Add(60 * time.Second))
+		if err := conn.ReadJSON(&auth); err != nil {
+			conn.Close()
+			return nil, err
+		}
+		conn.SetReadDeadline(time.Time{})
+		if ok, _ := auth["Body"]["Success"].(bool); !ok {
+			conn.Close()
+			return nil, fmt.Errorf("service authentication refused")
+		}
+		go sc.reader()
+		for i, ty := range c.Types {
+			sc.send(map[string]any{"Head": map[string]any{"Type": "RegisterAgent"}, "Body": map[string]any{"Agent": map[string]any{
+				"Name": fmt.Sprintf("tp%d", i), "MagicValue": ty.Magic, "Author": "verif", "Description": "generated",
+				"Formats": []any{map[string]any{"Name": "Exe", "Extension": "exe"}}, "SupportedOS": []any{"linux"},
+				"Commands": []any{}, "BuildingConfig": map[string]any{"Sleep": "10"},
+			}}})
+		}
+		if first && c.TPSession {
+			sc.send(map[string]any{"Head": map[string]any{"Type": "Agent"}, "Body": map[string]any{"Type": "AgentRegister",
+				"AgentHeader":  map[string]any{"Size": "64", "MagicValue": fmt.Sprintf("%x", c.Types[0].Number&0x7fffffff), "AgentID": fmt.Sprintf("%08x", tpSessionID)},
+				"RegisterInfo": map[string]any{"Hostname": "tp-host", "Username": "bob", "Domain": "corp", "InternalIP": "10.0.0.9", "Process Path": "/bin/tp", "Process Name": "tp", "Process Arch": "x64", "Process ID": "77", "Process Parent ID": "1", "Process Elevated": "0", "OS Version": "10.0.0.0.0", "OS Build": "1", "OS Arch": "x64", "SleepDelay": "5"},
+			}})
+		}
+		if err := sc.barrier(); err != nil {
+			sc.leave(true)
+			return nil, err
+		}
+		if got := len(w.TS.Service.Agents); got != len(c.Types) {
+			sc.leave(true)
+			return nil, fmt.Errorf("%d agent types registered, sent %d", got, len(c.Types))
+		}
+		return sc, nil
 	}
-	sc := &svcClient{conn: conn, answer: "now", replies: map[string]chan map[string]map[string]any{}, done: make(chan struct{})}
+	sc, err := connectService(true)
+	if err != nil {
+		panic("infrastructure: service script: " + err.Error())
+	}
 	connected := true
 	defer func() {
 		if connected {
@@ -365,38 +419,6 @@ func checkD(c CaseD) *core.Violation {
 		}
 		waitServiceGone()
 	}()
-	if err := conn.WriteJSON(map[string]any{"Head": map[string]any{"Type": "Register"}, "Body": map[string]any{"Password": "svcpw"}}); err != nil {
-		panic("infrastructure: " + err.Error())
-	}
-	var auth map[string]map[string]any
-	if err := conn.ReadJSON(&auth); err != nil {
-		panic("infrastructure: " + err.Error())
-	}
-	if ok, _ := auth["Body"]["Success"].(bool); !ok {
-		panic("infrastructure: service authentication refused")
-	}
-	go sc.reader()
-
-	// the service registers its agent types (havoc-py AgentType.get_dict() shape)
-	for i, ty := range c.Types {
-		sc.send(map[string]any{"Head": map[string]any{"Type": "RegisterAgent"}, "Body": map[string]any{"Agent": map[string]any{
-			"Name": fmt.Sprintf("tp%d", i), "MagicValue": ty.Magic, "Author": "verif", "Description": "generated",
-			"Formats": []any{map[string]any{"Name": "Exe", "Extension": "exe"}}, "SupportedOS": []any{"linux"},
-			"Commands": []any{}, "BuildingConfig": map[string]any{"Sleep": "10"},
-		}}})
-	}
-	if c.TPSession {
-		sc.send(map[string]any{"Head": map[string]any{"Type": "Agent"}, "Body": map[string]any{"Type": "AgentRegister",
-			"AgentHeader":  map[string]any{"Size": "64", "MagicValue": fmt.Sprintf("%x", c.Types[0].Number&0x7fffffff), "AgentID": fmt.Sprintf("%08x", tpSessionID)},
-			"RegisterInfo": map[string]any{"Hostname": "tp-host", "Username": "bob", "Domain": "corp", "InternalIP": "10.0.0.9", "Process Path": "/bin/tp", "Process Name": "tp", "Process Arch": "x64", "Process ID": "77", "Process Parent ID": "1", "Process Elevated": "0", "OS Version": "10.0.0.0.0", "OS Build": "1", "OS Arch": "x64", "SleepDelay": "5"},
-		}})
-	}
-	if err := sc.barrier(); err != nil {
-		panic("infrastructure: " + err.Error())
-	}
-	if got := len(w.TS.Service.Agents); got != len(c.Types) {
-		panic(fmt.Sprintf("infrastructure: %d agent types registered, sent %d", got, len(c.Types)))
-	}
 
 	// a Demon session in the same teamserver
 	k, iv := keyOf(0, false)
@@ -460,6 +482,30 @@ func checkD(c CaseD) *core.Violation {
 				expect = "404-untouched"
 			}
 		}
+		desc := fmt.Sprintf("request %d (%s via %s, %d bytes, magic %#x, types %v)", ri, lbl, r.Via, len(body), magic, c.Types)
+		if r.Kind == "tp" && expect == "200" && strings.HasPrefix(r.Answer, "close-") {
+			// the service closes its websocket instead of answering the relayed request(s)
+			if v := pendingClose(c, w, sc, r, body, desc); v != nil {
+				return v
+			}
+			connected = false
+			if !waitServiceGone() {
+				return core.V("service|leave|connection-goroutine-stays", "%s: 30 s after the service disconnected the teamserver's goroutine for its connection still runs", desc)
+			}
+			// ... and comes back: the teamserver keeps serving a re-connecting service
+			var cerr error
+			if v := core.WithWatchdog(90*time.Second, "service-reconnects", func() *core.Violation {
+				sc, cerr = connectService(false)
+				return nil
+			}); v != nil {
+				return v
+			}
+			if cerr != nil {
+				return core.V("service|reconnect-not-served", "%s: after the service had disconnected with a request pending, a re-connecting service was not served: %v", desc, cerr)
+			}
+			connected = true
+			continue
+		}
 		sc.mu.Lock()
 		sc.answer = r.Answer
 		nRelayed := len(sc.relayed)
@@ -478,7 +524,6 @@ func checkD(c CaseD) *core.Violation {
 			}
 			return nil
 		})
-		desc := fmt.Sprintf("request %d (%s via %s, %d bytes, magic %#x, types %v)", ri, lbl, r.Via, len(body), magic, c.Types)
 		if v != nil {
 			if strings.HasPrefix(v.Sig, "panic|") {
 				v.Sig += "|registered-third-party-type"
@@ -574,6 +619,100 @@ func checkD(c CaseD) *core.Violation {
 	})
 }
 
+// pendingClose: one (or, with r.Pair, two) registered third-party request(s) are relayed to the
+// service, which then closes its websocket (cleanly or abruptly) instead of answering.  Handling of
+// every pending request must still end: HEAD (1b2902c: ClientClose closes ClientService.Done, on which
+// SendResponse selects) lets it return with an empty body, i.e. status 200 and no bytes.
+func pendingClose(c CaseD, w *agx.World, sc *svcClient, r ReqD, body []byte, desc string) *core.Violation {
+	type job struct {
+		via  string
+		body []byte
+	}
+	jobs := []job{{r.Via, body}}
+	if r.Pair {
+		r2 := r
+		r2.IDKind = map[string]string{"tp-session": "unknown", "unknown": "demon-session", "demon-session": "tp-session"}[r.IDKind]
+		if r2.Len < 16 {
+			r2.Len = 16
+		}
+		via2 := "ext"
+		if r.Via == "ext" {
+			via2 = "http"
+		}
+		jobs = append(jobs, job{via2, c.build(r2)})
+	}
+	type res struct {
+		i     int
+		code  int
+		reply []byte
+		v     *core.Violation
+	}
+	sc.mu.Lock()
+	sc.answer = "hold"
+	n0 := len(sc.relayed)
+	sc.mu.Unlock()
+	what := "registered-third-party-request|service-closes-instead-of-answering"
+	return core.WithWatchdog(20*time.Second, what, func() *core.Violation {
+		results := make(chan res, len(jobs))
+		early := []res{}
+		for i, j := range jobs {
+			go func(i int, j job) {
+				rs := res{i: i}
+				rs.v = core.Guard(func() *core.Violation {
+					if j.via == "ext" {
+						rs.code, rs.reply = w.PostExt(j.body)
+					} else {
+						rs.code, rs.reply = w.Post(j.body)
+					}
+					return nil
+				})
+				results <- rs
+			}(i, j)
+			// the next step only once the service has this request in its hands
+			dl := time.Now().Add(15 * time.Second)
+			for {
+				sc.mu.Lock()
+				n := len(sc.relayed)
+				sc.mu.Unlock()
+				if n >= n0+i+1 {
+					break
+				}
+				select {
+				case rs := <-results:
+					early = append(early, rs)
+				default:
+				}
+				if len(early) > 0 || time.Now().After(dl) {
+					code := -1
+					if len(early) > 0 {
+						if early[0].v != nil {
+							return early[0].v
+						}
+						code = early[0].code
+					}
+					return core.V("third-party|registered-request-not-relayed", "%s: pending request %d was not relayed to the service (status %d)", desc, i, code)
+				}
+				time.Sleep(200 * time.Microsecond)
+			}
+		}
+		sc.leave(r.Answer == "close-abrupt")
+		for range jobs {
+			rs := <-results
+			if rs.v != nil {
+				if strings.HasPrefix(rs.v.Sig, "panic|") {
+					rs.v.Sig += "|service-closes-instead-of-answering"
+				}
+				rs.v.Msg = desc + ": " + rs.v.Msg
+				return rs.v
+			}
+			if rs.code != 200 || len(rs.reply) != 0 {
+				return core.V("third-party|service-closed-pending|reply", "%s: pending request %d (of %d) returned status %d with %d bytes after the service closed its websocket (%s); an empty 200 is what handling a relayed request without an answer yields", desc, rs.i, len(jobs), rs.code, len(rs.reply), r.Answer)
+			}
+		}
+		return nil
+	})
+}
+
 func classifyD(c CaseD) core.Class {
 	var cl core.Class
 	canon := map[uint32]bool{}
@@ -587,7 +726,7 @@ func classifyD(c CaseD) core.Class {
 		}
 	}
 	gone := false
-	var regHit, nearMiss, short, leave bool
+	var regHit, nearMiss, short, leave, closedPending bool
 	first := ""
 	for _, r := range c.Reqs {
 		cl.Labels = append(cl.Labels, "req:"+r.Kind, "via:"+r.Via)
@@ -604,6 +743,12 @@ func classifyD(c CaseD) core.Class {
 			case canon[m] && !gone:
 				regHit = true
 				cl.Labels = append(cl.Labels, "registered-magic->service", "answer:"+r.Answer)
+				if strings.HasPrefix(r.Answer, "close-") {
+					closedPending = true
+					if r.Pair {
+						cl.Labels = append(cl.Labels, "two-requests-pending-at-close")
+					}
+				}
 			case r.Mut == "exact" && !gone:
 				nearMiss = true
 				cl.Labels = append(cl.Labels, "exact-number-of-noncanonical-spelling:"+ty.Spelling)
@@ -622,18 +767,18 @@ func classifyD(c CaseD) core.Class {
 		}
 	}
 	cl.NonTrivial = regHit || nearMiss
-	cl.Fingerprint = fmt.Sprintf("types=%d|reg=%v|near=%s|short=%v|leave=%v|tps=%v", len(c.Types), regHit, first, short, leave, c.TPSession)
+	cl.Fingerprint = fmt.Sprintf("types=%d|reg=%v|near=%s|short=%v|leave=%v|tps=%v|closepending=%v", len(c.Types), regHit, first, short, leave, c.TPSession, closedPending)
 	return cl
 }
 
 func TestC01d(t *testing.T) {
 	core.Run(t, core.Spec[CaseD]{
 		Property: "C01", Sub: "d",
-		Rule: "real Teamserver with a Service block; a service client on the real service websocket registers 1-2 agent types whose MagicValue string is spelled canonically (0x + lower-case digits, no leading zeros), with upper-case digits, 0X, leading zeros, without prefix, with surrounding whitespace, in decimal or empty (numbers incl. the Demon magic), optionally a third-party session, and answers relayed requests at once / late / a second time after the request is over, or disconnects (cleanly / abruptly) between two requests; one Demon session is registered too. 1-6 requests via the HTTP listener engine or the External-C2 handler: third-party shaped packages carrying a registered type's number, the number +-1, byte-swapped or the Demon magic, for the third-party session id, an unknown id or the Demon's id, of every length 0-24 or 16-64 bytes, with right or wrong size field; Demon check-ins and output callbacks. Oracle: status 200 or 404, no panic, return within 30 s, no agent mutex held, registered third-party traffic (HEAD's rule: a connected service registered exactly the string fmt.Sprintf(\"0x%x\", magic); >= 16 bytes; not the Demon magic) is relayed once and answered 200 with the service's bytes, everything else that is not traffic of the Demon session gets 404, is not relayed and leaves sessions/queues/database/loot untouched; afterwards the Demon can be tasked and checked in. Non-trivial: a request reaches the service, or carries the exact number of a non-canonically spelled type; distinct = (#types, reached service, first near-miss spelling, short request, service left, third-party session)",
-		Gen:   genD, Check: checkD, Classify: classifyD,
+		Rule: "real Teamserver with a Service block; a service client on the real service websocket registers 1-2 agent types whose MagicValue string is spelled canonically (0x + lower-case digits, no leading zeros), with upper-case digits, 0X, leading zeros, without prefix, with surrounding whitespace, in decimal or empty (numbers incl. the Demon magic), optionally a third-party session, and answers relayed requests at once / late / a second time after the request is over, disconnects (cleanly / abruptly) between two requests, or closes its websocket (cleanly / abruptly) INSTEAD of answering one relayed request or two that are pending at the same time (other agent id, other entry point) and then re-connects and registers again; one Demon session is registered too. 1-6 requests via the HTTP listener engine or the External-C2 handler: third-party shaped packages carrying a registered type's number, the number +-1, byte-swapped or the Demon magic, for the third-party session id, an unknown id or the Demon's id, of every length 0-24 or 16-64 bytes, with right or wrong size field; Demon check-ins and output callbacks. Oracle: status 200 or 404, no panic, return within 30 s, no agent mutex held, registered third-party traffic (HEAD's rule: a connected service registered exactly the string fmt.Sprintf(\"0x%x\", magic); >= 16 bytes; not the Demon magic) is relayed once and answered 200 with the service's bytes, a relayed request the service closes on instead of answering returns within 20 s with an empty 200 (what HEAD 1b2902c yields for a relayed request without an answer) and the re-connecting service is served again; everything else that is not traffic of the Demon session gets 404, is not relayed and leaves sessions/queues/database/loot untouched; afterwards the Demon can be tasked and checked in. Non-trivial: a request reaches the service, or carries the exact number of a non-canonically spelled type; distinct = (#types, reached service, first near-miss spelling, short request, service left, third-party session)",
+		Gen:  genD, Check: checkD, Classify: classifyD,
 		Assumptions: []string{
-			"a service that never answers a relayed request (or disconnects while one is pending) blocks that request forever on HEAD (SendResponse waits on a channel nobody closes); the service script therefore always answers, and only leaves between two requests",
-			"the second copy of an answer is sent after the agent request has returned (sent while it is still being consumed it would race the handler's close of the response channel)",
+			"a service that stays connected but never answers a relayed request keeps that request waiting (there is no time limit in the protocol); the service script therefore either answers or closes its websocket",
+			"'answers twice WHILE the request is still pending' is kept out of the generated behaviours: the second copy is sent after the agent request has returned. Sent earlier it races the handler's close/delete of the response channel (send on closed channel, unsynchronised access to ClientService.Responses): an open-ended race family that needs a trusted, authenticated service to misbehave, not listener traffic",
 			"which magic counts as registered is modelled after HEAD's exact string comparison, as instructed",
 		},
 	})
